@@ -1,4 +1,5 @@
 import LentilVerif.Model.Zernike
+import LentilVerif.Gen.ZernikeCalls
 /-! Executable model of `zernike_basis / zernike_fit / zernike_compose / zernike_remove` (`lentil/zernike.py`), Mathlib-free and
 generic in the scalar type: run at `Float` by the driver (Driver/Ops/C12.lean) and proved, over any field, to be the abstract matrix
 objects `zfit / zcompose / zremove` of `Lemmas/ZernikeFit.lean` (Props/C12.lean).
@@ -52,6 +53,26 @@ def zBasisX (sqrtN : Nat → K) (cos sin : K → K) (modes : Nat → Nat) (norma
 def composeFullX (sqrtN : Nat → K) (cos sin : K → K) (nollOf : Nat → Nat) (L : Nat) (coeffs : Nat → K) (normalize : Bool)
     (rho theta : Nat → K) (mask : Nat → Bool) (s : Nat) : K :=
   sumRange L fun i => coeffs i * zernAt sqrtN cos sin (nollOf i) normalize (rho s) (theta s) (mask s)
+
+/-! ### the call wiring of `zernike_fit` / `zernike_remove`, through the REGENERATED argument projections (`Gen.fitBasisArgs`,
+`Gen.removeFitArgs`, `Gen.removeBasisArgs`): which mask / modes / normalisation / coordinates reach which callee -/
+
+/-- `zernike_basis(**b)ᵀ` for an argument record -/
+def basisOfArgs (sqrtN : Nat → K) (cos sin : K → K) (b : Gen.BasisArgs (Nat → Bool) (Nat → Nat) (Nat → K)) : Nat → Nat → K :=
+  zBasisX sqrtN cos sin b.modes b.normalize b.rho b.theta b.mask
+
+end
+
+section
+variable [Add K] [Sub K] [Mul K] [Div K] [Neg K] [Zero K] [One K] [IntCast K]
+
+/-- `zernike_fit(**a)`: the basis is requested with `Gen.fitBasisArgs a` -/
+def fitA (sqrtN : Nat → K) (cos sin : K → K) (p k : Nat) (a : Gen.FitArgs (Nat → K) (Nat → Bool) (Nat → Nat) (Nat → K)) : Nat → K :=
+  fitX p k (basisOfArgs sqrtN cos sin (Gen.fitBasisArgs a)) a.opd
+
+/-- `zernike_remove(**a)`: coefficients from `zernike_fit(**Gen.removeFitArgs a)`, basis from `zernike_basis(**Gen.removeBasisArgs a)` -/
+def removeA (sqrtN : Nat → K) (cos sin : K → K) (p k : Nat) (a : Gen.RemoveArgs (Nat → K) (Nat → Bool) (Nat → Nat) (Nat → K)) : Nat → K :=
+  fun s => a.opd s - composeX k (basisOfArgs sqrtN cos sin (Gen.removeBasisArgs a)) (fitA sqrtN cos sin p k (Gen.removeFitArgs a)) s
 
 end
 end Lentil
